@@ -55,7 +55,7 @@ def _c06_parts(tier):
 def _c14_parts(tier):
     from sim.engines import c14
     q = tier == "quick"
-    return [{"engine": "c14", "params": c14.default_params(tier), "runs": 16_000 if q else 400_000,
+    return [{"engine": "c14", "params": c14.default_params(tier), "runs": 12_000 if q else 400_000,
              "per_fork": 1, "wall_s": 90 if q else 1500, "run_timeout_s": 180}]
 
 
